@@ -21,3 +21,6 @@ for id in "$@"; do
 done
 git reset -q --hard HEAD
 git status --porcelain | head -3
+# the evidence written while the change was applied must not survive it
+git -C /verif checkout -q -- evidence 2>/dev/null
+git -C /verif clean -qfd evidence 2>/dev/null
